@@ -100,6 +100,11 @@ claim("C20", "model_checking",
       "Protocol.tla fixes the alphabet of calls a driver may make on user objects and their order (evaluate only after a truthy call of the same entry; a falsy result is recorded as not attempted and never evaluated; every accepted change of the atom count / cell is announced exactly once to every distinct move object; serialization calls to_dict/from_dict per component); TLC checks the invariants and enumerates every behaviour (driver x trial sequence with entry, truthy/falsy move result in five spellings, verdict x optional serialize-and-rebuild) with the expected call log. Each behaviour is replayed: the schedule is imposed through the simulation's own generator, verdicts through user criteria, and the user move / criteria (no quansino base class, value-equal twin included) log and refuse every attribute access outside the protocol, __eq__ included.",
       "Trusted: TLC; the strict objects as representatives of 'all conforming user programs'. Notifications that announce no change (empty index lists) are not judged.", "5 C20")
 
+claim("C13", "model_checking",
+      "TLC on the exact lattice of the published acceptance function and the rejection loop (FBMC.tla) + lattice replay through the simulation's own generator + magnitude sweep with the real generator + chi-square of the sampled density",
+      "On gamma = k ln2, zeta = j/4, u = (2r+1)/32 the Bal-Neyts acceptance function is a ratio of integers; TLC checks that it is a probability, that displacement along the force is favoured and increasingly so, mirror symmetry, that a converged coordinate keeps its zeta, that the configuration advances exactly once and only when all coordinates converged, and that every gamma has positive acceptance mass; the accept table is exported. Real ForceBias objects are stepped with forces giving exactly those gammas (temperature and delta also re-assigned on the live object) and scripted (zeta, u) rounds: converged sets per round, final zeta, gamma and the mass-scaled displacement must match the table. With the real generator and forces from 0 to 1e300 of mixed sign the bound, termination, single position update and finiteness are checked; zeta histograms are compared with the published density (chi-square, mean).",
+      "Trusted: TLC; scipy quadrature for bin masses (1/gamma is irrational on the lattice). The density clause is statistical (p >= 1e-9, |z| <= 6); the lattice layer is applicable only when the draw pattern is uniform(-1,1)/random() per round.", "5 C13")
+
 NOT_YET = "check not built yet in this round (planned in DESIGN.md section 5); will be claimed once its spec and conformance harness exist"
 
 
